@@ -111,6 +111,17 @@ func NewSnapshotter(path string,
 	inCh := make(chan Event, eventChSize)
 	streamCh := make(chan Event, eventChSize)
 
+	// A crash during compaction, after the old snapshot was removed and
+	// before the new one was moved into place, leaves only the complete
+	// temporary file behind. Install it instead of starting from nothing.
+	if _, err := os.Stat(path); os.IsNotExist(err) {
+		if _, err := os.Stat(path + tmpExt); err == nil {
+			if err := os.Rename(path+tmpExt, path); err != nil {
+				return nil, nil, fmt.Errorf("failed to install compacted snapshot: %v", err)
+			}
+		}
+	}
+
 	// Try to open the file
 	fh, err := os.OpenFile(path, os.O_RDWR|os.O_APPEND|os.O_CREATE, 0644)
 	if err != nil {
